@@ -166,6 +166,7 @@ func (ex *Exec) branch(c Value) bool {
 	if r2 == Sat {
 		alt := append(slices.Clone(ex.decisions[:ex.pos]), Dec{'b', 0})
 		ex.alts = append(ex.alts, alt)
+		ex.eng.noteFork(ex)
 	}
 	ex.decisions = append(ex.decisions, Dec{'b', 1})
 	ex.pos++
@@ -241,6 +242,7 @@ func (ex *Exec) concretize(i Int) uint64 {
 		if r2 == Sat {
 			alt := append(slices.Clone(ex.decisions[:ex.pos]), Dec{'n', v})
 			ex.alts = append(ex.alts, alt)
+			ex.eng.noteFork(ex)
 		}
 		ex.decisions = append(ex.decisions, Dec{'c', v})
 		ex.pos++
@@ -304,6 +306,7 @@ type frame struct {
 	panic            interface{}
 	phitemps         []Value
 	cur              ssa.Instruction
+	phisDone         bool
 }
 
 func (fr *frame) get(key ssa.Value) Value {
@@ -521,7 +524,13 @@ func (ex *Exec) runFrame(fr *frame) {
 		}
 	}()
 	for {
-		nonPhis := executePhis(fr)
+		var nonPhis []ssa.Instruction
+		if fr.phisDone {
+			fr.phisDone = false
+			nonPhis = fr.block.Instrs[len(joinPhis(fr.block)):]
+		} else {
+			nonPhis = executePhis(fr)
+		}
 		for _, instr := range nonPhis {
 			ex.steps++
 			if ex.steps > ex.maxSteps {
@@ -701,8 +710,12 @@ func (ex *Exec) visitInstr(fr *frame, instr ssa.Instruction) continuation {
 		store(ex.derefPtr(fr.get(instr.Addr), "store"), fr.get(instr.Val))
 
 	case *ssa.If:
+		cv := fr.get(instr.Cond)
+		if sb, isSym := cv.(SymBool); isSym && ex.tryMerge(fr, instr, sb.T) {
+			return kJump
+		}
 		succ := 1
-		if ex.branch(fr.get(instr.Cond)) {
+		if ex.branch(cv) {
 			succ = 0
 		}
 		fr.prevBlock, fr.block = fr.block, fr.block.Succs[succ]
@@ -794,8 +807,12 @@ func (ex *Exec) visitInstr(fr *frame, instr ssa.Instruction) continuation {
 		case Array:
 			fr.env[instr] = copyVal(x[ex.index(idx, len(x), signed)])
 		case string:
-			fr.env[instr] = CInt(uint64(x[ex.index(idx, len(x), signed)]), 8)
+			fr.env[instr] = ex.strIndex(x, idx, signed)
 		case SymStr:
+			if x.B != nil {
+				fr.env[instr] = x.B[ex.index(idx, len(x.B), signed)]
+				break
+			}
 			i := idx.(Int)
 			inb := mkBool(Bin("bvult", SBool, i.Term(), SeqLen(x.T)))
 			if !ex.branch(inb) {
@@ -833,6 +850,24 @@ func (ex *Exec) visitInstr(fr *frame, instr ssa.Instruction) continuation {
 		panic(fmt.Sprintf("unexpected instruction: %T", instr))
 	}
 	return kNext
+}
+
+// strIndex indexes a concrete string; a symbolic index into a short string
+// (lookup table) becomes an ite chain instead of forking.
+func (ex *Exec) strIndex(x string, idx Value, signed bool) Value {
+	i := idx.(Int)
+	if i.T == nil || len(x) > 256 || len(x) == 0 {
+		return CInt(uint64(x[ex.index(idx, len(x), signed)]), 8)
+	}
+	inb := mkBool(Bin("bvult", SBool, i.T, BVConst(uint64(len(x)), int(i.W))))
+	if !ex.branch(inb) {
+		ex.rtPanic(fmt.Sprintf("runtime error: index out of range [symbolic] with length %d", len(x)))
+	}
+	res := BVConst(uint64(x[len(x)-1]), 8)
+	for k := len(x) - 2; k >= 0; k-- {
+		res = Ite(Eq(i.T, BVConst(uint64(k), int(i.W))), BVConst(uint64(x[k]), 8), res)
+	}
+	return SInt(res)
 }
 
 func (ex *Exec) typeAssert(instr *ssa.TypeAssert, itf Iface) Value {
@@ -917,7 +952,7 @@ func (ex *Exec) lookup(instr *ssa.Lookup, x, idx Value) Value {
 		return v
 	case string:
 		_, signed, _ := intWidth(instr.Index.Type())
-		return CInt(uint64(x[ex.index(idx, len(x), signed)]), 8)
+		return ex.strIndex(x, idx, signed)
 	}
 	panic(fmt.Sprintf("unexpected x type in Lookup: %T", x))
 }
@@ -969,7 +1004,21 @@ func (ex *Exec) sameConcrete(a, b Value) bool {
 		return ok && a == bs
 	case SymStr:
 		bs, ok := b.(SymStr)
-		return ok && a.T.S == bs.T.S
+		if !ok {
+			return false
+		}
+		if a.B != nil || bs.B != nil {
+			if len(a.B) != len(bs.B) || a.B == nil || bs.B == nil {
+				return false
+			}
+			for i := range a.B {
+				if !ex.sameConcrete(a.B[i], bs.B[i]) {
+					return false
+				}
+			}
+			return true
+		}
+		return a.T.S == bs.T.S
 	case bool:
 		bb, ok := b.(bool)
 		return ok && a == bb
@@ -1045,6 +1094,11 @@ func (ex *Exec) rangeIter(x Value, t types.Type) iter {
 	case string:
 		return &strIter{s: x}
 	case SymStr:
+		if x.B != nil {
+			if c, ok := concBytes(x.B); ok {
+				return &strIter{s: string(c)}
+			}
+		}
 		ex.unsupported("range over symbolic string")
 	}
 	panic(fmt.Sprintf("cannot range over %T", x))
@@ -1059,6 +1113,10 @@ func (ex *Exec) slice(instr *ssa.Slice, x, lo, hi, max Value) Value {
 		Len = len(x)
 		Cap = Len
 	case SymStr:
+		if x.B != nil {
+			r := ex.slice(instr, Slice(x.B), lo, hi, nil)
+			return mkStrBytes(r.(Slice))
+		}
 		return ex.sliceSymStr(x, lo, hi)
 	case Slice:
 		Len = len(x)
@@ -1136,7 +1194,7 @@ func (ex *Exec) sliceSymStr(x SymStr, lo, hi Value) Value {
 	if !ex.branch(ok) {
 		ex.rtPanic("runtime error: slice bounds out of range (symbolic string)")
 	}
-	return SymStr{SeqExtract(x.T, l, Bin("bvsub", SBV(64), h, l))}
+	return SymStr{T: SeqExtract(x.T, l, Bin("bvsub", SBV(64), h, l))}
 }
 
 // toW converts an Int to width w (sign- or zero-extending / truncating).
